@@ -1,0 +1,7 @@
+//go:build !verif
+
+package commitlog
+
+// crashPoint marks a point between two file-system effects of an operation.
+// It does nothing unless the package is built with the verif tag.
+func crashPoint(string) {}
